@@ -28,8 +28,10 @@ from pathlib import Path
 VERIF = Path(__file__).resolve().parents[2]
 LEAN = VERIF / "lean"
 REPO = Path(os.environ.get("PW_REPO", "/repo"))
-EVIDENCE = VERIF / "evidence"
-REPLAYS = VERIF / "out" / "replays"
+# evidence is only ever written about /repo itself: runs against a scratch copy (mutant evaluation) set PWH_SCRATCH_OUT
+_OUT = Path(os.environ["PWH_SCRATCH_OUT"]) if os.environ.get("PWH_SCRATCH_OUT") else None
+EVIDENCE = (_OUT / "evidence") if _OUT else VERIF / "evidence"
+REPLAYS = (_OUT / "replays") if _OUT else VERIF / "out" / "replays"
 ALLOWED_AXIOMS = {"propext", "Classical.choice", "Quot.sound"}
 FORBIDDEN = re.compile(
     r"\bsorry\b|\badmit\b|^\s*axiom\s|native_decide|bv_decide|implemented_by|\bunsafe\s|maxHeartbeats\s+0\b"
@@ -325,7 +327,7 @@ def write_replay(prop: str, tier: str, f: Failure, no_input: bool = False, unche
 
 def write_evidence(prop: str, tier: str, level: str, coverage: dict, assumptions: list[str],
                    wall_s: float, violations: int):
-    EVIDENCE.mkdir(exist_ok=True)
+    EVIDENCE.mkdir(parents=True, exist_ok=True)
     body = {
         "property_id": prop,
         "tier": tier,
